@@ -56,6 +56,154 @@ def expr_place_key(e):
     return None
 
 
+class Carriers:
+    """Decision-carrying variables of a region: a local with several plain assignments inside the region, each of them
+    an enum-variant aggregate (`Some(n)`, `None`, ...) or a boolean constant, that is later switched on.  Such a
+    variable correlates an earlier branch with a later one (`let took = if .. { Some(n) } else { None }; if let
+    Some(n) = took { cursor += n } else { .. }`): without tracking it, balance states would be propagated along
+    infeasible paths.  During propagation a state carries a marker (local, block, stmt) of the assignment that
+    produced the variable's current value; a switch on the variable lets a state through only to the successors its
+    value selects, and a term that reads the variable's payload is rewritten to the payload that was assigned."""
+
+    def __init__(self, a, blocks):
+        self.a = a
+        blocks = set(blocks)
+        self.defs = {}      # block -> [(stmt idx, local, value, payload expr or None)]
+        self.locals = set()
+        fl = a.flow
+        for l, ds in fl.defs.items():
+            if len(ds) < 2 or l in fl.partial or not all(d[0] == 'assign' for d in ds):
+                continue
+            vals = []
+            for d in ds:
+                r = d[3]
+                if r['k'] == 'agg' and r.get('ak') == 'adt' and 'dv' in r:
+                    pay = fl.expr(r['ops'][0]) if len(r['ops']) == 1 else None
+                    vals.append((d[1], d[2], r['dv'], pay))
+                elif r['k'] == 'use' and 'c' in r['a'] and r['a'].get('ty') == 'bool' and str(r['a'].get('v')) in ('0', '1'):
+                    vals.append((d[1], d[2], int(str(r['a']['v'])), None))
+                else:
+                    vals = None
+                    break
+            if not vals or not any(v[0] in blocks for v in vals):
+                continue
+            self.locals.add(l)
+            for (b, si, v, pay) in vals:
+                if b in blocks:
+                    self.defs.setdefault(b, []).append((si, l, v, pay))
+        for b in self.defs:
+            self.defs[b].sort()
+        # switches on a carrier: block -> (local, {succ: allowed values or None (= every value not listed)})
+        self.switches = {}
+        for b in blocks:
+            t = a.blocks[b]['t']
+            if t['k'] != 'switch':
+                continue
+            l = self._switched_local(b, t)
+            if l is None or l not in self.locals:
+                continue
+            listed = {}
+            for v, tgt in t['ts']:
+                listed.setdefault(tgt, set()).add(int(v) if str(v).lstrip('-').isdigit() else v)
+            self.switches[b] = (l, listed, t['o'], {int(v) if str(v).lstrip('-').isdigit() else v for v, _ in t['ts']})
+
+    def _switched_local(self, b, t):
+        o = t['d']
+        pl = o.get('mv') or o.get('cp')
+        if pl is None or 'p' in pl:
+            return None
+        dl = pl['l']
+        if dl in self.locals:
+            return dl           # boolean carrier switched on directly
+        for s in self.a.blocks[b]['s']:
+            r = s.get('r')
+            if r and s.get('d', {}).get('l') == dl and 'p' not in s['d']:
+                if r['k'] == 'discr' and 'p' not in r['p']:
+                    return r['p']['l']
+                if r['k'] == 'use':
+                    q = r['a'].get('mv') or r['a'].get('cp')
+                    if q and 'p' not in q and q['l'] in self.locals:
+                        return q['l']
+        return None
+
+    # -- state handling: markers are entries (('@def', local, (block, stmt, value)), 1) ---------------
+    @staticmethod
+    def marker(st, l):
+        for (k, n) in st:
+            if k[0] == '@def' and k[1] == l:
+                return k[2]
+        return None
+
+    def after_defs(self, b, st):
+        ds = self.defs.get(b)
+        if not ds:
+            return st
+        out = {k: n for (k, n) in st}
+        for (si, l, v, pay) in ds:
+            for k in [k for k in out if k[0] == '@def' and k[1] == l]:
+                del out[k]
+            out[('@def', l, (b, si, v))] = 1
+        return frozenset(out.items())
+
+    def allows(self, b, s, st):
+        sw = self.switches.get(b)
+        if not sw:
+            return True
+        l, listed, other, allvals = sw
+        m = self.marker(st, l)
+        if m is None:
+            return True
+        v = m[2]
+        if s in listed and v in listed[s]:
+            return True
+        if s == other and v not in allvals:
+            return True
+        return False
+
+    def payload(self, st, l):
+        m = self.marker(st, l)
+        if m is None:
+            return None
+        for (si, l2, v, pay) in self.defs.get(m[0], []):
+            if l2 == l and si == m[1]:
+                return pay
+        return None
+
+    def rewrite(self, st, e):
+        """expression with reads of a carrier's payload replaced by what was assigned on this state's path"""
+        if not isinstance(e, tuple) or not self.locals:
+            return e
+        if e[0] == 'local' and e[1] in self.locals:
+            p = self.payload(st, e[1])
+            return p if p is not None else e
+        return tuple(self.rewrite(st, x) if isinstance(x, tuple) else ([self.rewrite(st, y) for y in x] if isinstance(x, list) else x) for x in e)
+
+    @staticmethod
+    def strip(st):
+        return frozenset((k, n) for (k, n) in st if k[0] != '@def')
+
+
+def _apply(car, b, cur, eff):
+    """states after block b: carrier assignments update the markers, tracked updates are added (terms rewritten
+    through the markers when the update carries its expression as 4th element)"""
+    new = set()
+    for st in cur:
+        if car is not None:
+            st = car.after_defs(b, st)
+        if eff:
+            c = Counter(dict(st))
+            for e in eff:
+                term = e[2]
+                if car is not None and len(e) > 3 and e[3] is not None and car.locals:
+                    r = car.rewrite(st, e[3])
+                    if r is not e[3]:
+                        term = flowm.show(r)
+                c[(e[0], term, e[1])] += 1
+            st = frozenset(c.items())
+        new.add(st)
+    return new
+
+
 class Region:
     def __init__(self, a, blocks, entry):
         self.a = a
@@ -91,32 +239,25 @@ class Region:
         return order, succ
 
     def propagate(self, effects, branch_facts=None):
-        """effects: block -> list of (counter, sign, term_string).  Returns (states_at_latch, problems):
+        """effects: block -> list of (counter, sign, term_string[, term expr]).  Returns (states_at_latch, problems):
         states_at_latch = set of frozenset(((counter, term, sign), count)) reaching a latch edge; problems = list."""
         order, succ = self.topo()
         problems = []
         for b in self.inner_loop_blocks:
             if effects.get(b):
                 problems.append('tracked update inside an inner loop at line %d' % self.a.line(b))
+        car = Carriers(self.a, self.blocks)
         states = {self.entry: {frozenset()}}
         out = set()
         for b in order:
             cur = states.get(b)
             if not cur:
                 continue
-            eff = effects.get(b, [])
-            if eff:
-                new = set()
-                for st in cur:
-                    c = Counter(dict(st))
-                    for (counter, sign, term) in eff:
-                        c[(counter, term, sign)] += 1
-                    new.add(frozenset(c.items()))
-                cur = new
+            cur = _apply(car, b, cur, effects.get(b, []))
             if b in self.latches:
-                out |= cur
+                out |= {Carriers.strip(st) for st in cur}
             for s in succ[b]:
-                states.setdefault(s, set()).update(cur)
+                states.setdefault(s, set()).update(st for st in cur if car.allows(b, s, st))
         return out, problems
 
 
@@ -129,8 +270,56 @@ def state_terms(st, counter):
     return +c if all(v >= 0 for v in c.values()) else c
 
 
-def collect_effects(a, blocks, track):
-    """track(place_key) -> counter name or None.  Returns block -> [(counter, sign, term string, expr, line)]."""
+def subst_params(e, args):
+    """expression of a callee body with its parameters replaced by the caller's argument expressions"""
+    if not isinstance(e, tuple):
+        return e
+    if e[0] == 'param' and 1 <= e[1] <= len(args):
+        return args[e[1] - 1]
+    return tuple(subst_params(x, args) if isinstance(x, tuple) else ([subst_params(y, args) for y in x] if isinstance(x, list) else x) for x in e)
+
+
+def method_summary(F, callee):
+    """Additive-update summary of a small helper method: [(field key relative to param 1, sign, term expr)] if every
+    path through the callee performs exactly the same multiset of additive updates to fields of its first parameter
+    (and nothing else is tracked); None if the callee is unknown or its paths differ."""
+    from .core import an, strip_generics
+    cache = F.__dict__.setdefault('_msum', {})
+    if callee in cache:
+        return cache[callee]
+    norm = F.__dict__.get('_norm')
+    if norm is None:
+        norm = F.__dict__['_norm'] = {strip_generics(p): p for p in F.bodies}
+    q = norm.get(strip_generics(callee))
+    res = None
+    if q is not None and not F.bodies[q].get('coroutine'):
+        ca = an(F.bodies[q])
+        first = ca.body['locals'][1].get('n') if len(ca.body['locals']) > 1 else None
+        if first:
+            eff = collect_effects(ca, ca.cfg.reach0, lambda k: k[1:] if k is not None and len(k) >= 2 and k[0] == first else None)
+            if eff and not any(e[3] is None for es in eff.values() for e in es):
+                out = propagate_from(ca, [0], list(ca.cfg.returns), {b: [(c, sg_, t, ex) for (c, sg_, t, ex, _) in es] for b, es in eff.items()})
+                sts = set()
+                for v in out.values():
+                    sts |= v
+                # calls inside the helper (other than overflow panics) could hide further updates: require none that touch param 1
+                if len(sts) == 1:
+                    terms = {}
+                    for es in eff.values():
+                        for (c, sg_, t, ex, _) in es:
+                            terms[(c, t, sg_)] = ex
+                    res = []
+                    for ((c, t, sg_), n) in next(iter(sts)):
+                        for _ in range(n):
+                            res.append((c, sg_, terms[(c, t, sg_)]))
+    cache[callee] = res
+    return res
+
+
+def collect_effects(a, blocks, track, F=None):
+    """track(place_key) -> counter name or None.  Returns block -> [(counter, sign, term string, expr, line)].
+    With F (the fact base), a call of a helper method whose summary (method_summary) is a fixed set of additive updates
+    to fields of its receiver contributes those updates, instantiated with the call's arguments."""
     eff = {}
     for b in blocks:
         for si, s in enumerate(a.blocks[b]['s']):
@@ -141,6 +330,21 @@ def collect_effects(a, blocks, track):
             if cn is None:
                 continue
             eff.setdefault(b, []).append((cn, u[1], flowm.show(u[2]), u[2], s['ln']))
+        t = a.blocks[b]['t']
+        if F is not None and t['k'] == 'call' and t['args'] and (t.get('res') or t.get('fn')):
+            cal = t.get('res') or t.get('fn')
+            if not cal.startswith(('core::', 'alloc::', 'std::')):
+                recv = expr_place_key(a.flow.expr(t['args'][0]))
+                if recv is not None:
+                    sm = method_summary(F, cal)
+                    if sm:
+                        args = [a.flow.expr(o) for o in t['args']]
+                        for (fk, sign, ex) in sm:
+                            cn = track(recv + tuple(fk))
+                            if cn is None:
+                                continue
+                            ex2 = subst_params(ex, args)
+                            eff.setdefault(b, []).append((cn, sign, flowm.show(ex2), ex2, t['ln']))
     return eff
 
 
@@ -175,27 +379,20 @@ def propagate_from(a, start_blocks, stop_blocks, effects, cut_blocks=(), stop_ed
             indeg[s] -= 1
             if indeg[s] == 0:
                 work.append(s)
+    car = Carriers(a, region)
     states = {b: {frozenset()} for b in start_blocks if b in region}
     out = {}
     for b in order:
         cur = states.get(b)
         if not cur:
             continue
-        eff = effects.get(b, [])
-        if eff:
-            new = set()
-            for st in cur:
-                c = Counter(dict(st))
-                for e in eff:
-                    c[(e[0], e[2], e[1])] += 1
-                new.add(frozenset(c.items()))
-            cur = new
+        cur = _apply(car, b, cur, effects.get(b, []))
         if b in stop_blocks:
-            out.setdefault(b, set()).update(cur)
+            out.setdefault(b, set()).update(Carriers.strip(st) for st in cur)
             continue
         for s in cfg.succ[b]:
             if (b, s) in stop_edges:
-                out.setdefault(('edge', b, s), set()).update(cur)
+                out.setdefault(('edge', b, s), set()).update(Carriers.strip(st) for st in cur if car.allows(b, s, st))
         for s in succ[b]:
-            states.setdefault(s, set()).update(cur)
+            states.setdefault(s, set()).update(st for st in cur if car.allows(b, s, st))
     return out
